@@ -497,6 +497,16 @@ impl<'s> Context<'s> {
     }
 }
 
+#[cfg(selen_verif)]
+impl<'s> Context<'s> {
+    #[doc(hidden)]
+    /// Verification hook (cfg selen_verif): public constructor so that `try_set_min` /
+    /// `try_set_max` can be driven directly by an external harness.
+    pub fn new_verif(vars: &'s mut Vars, events: &'s mut Vec<VarId>) -> Self {
+        Self { vars, events }
+    }
+}
+
 #[doc(hidden)]
 // Trait kept internal, to prevent users from declaring their own views.
 pub(crate) trait ViewRaw: Copy + core::fmt::Debug + 'static {
